@@ -58,6 +58,7 @@ def texts(ctx):
     # fixed regression inputs (the repaired defects)
     out += ["#TITLE;", "junk\n#TITLE:a;", "#title:a;#TITLE:b;#Title;", "#VERSION:0.83;#TITLE:a;\n#NOTEDATA:;#NOTES:0000;#AFTER:1;",
             "#version:0.7;#ATTACKS:a:b:c;#DISPLAYBPM;", "", "   \n", "#NOTES:a:b;", "#NOTEDATA:;#chartname;#notes:00;",
+            "#VERSION:0.83;#NOTEDATA:;#NOTES2:a;#CREDIT:b;#NOTES:c;", "#VERSION:0.83;#NOTEDATA:;#NOTES:c;#NOTES2:a;#X:1;",
             "#VERSION\n#TITLE:a;", "# VERSION:0.83;#TITLE:a;", "#VERSION :0.83;#TITLE:a;\n#NOTEDATA :;#NOTES:0;", "#TITLE:a;#NOTES :a:b:c:d:e:f;"]
     return out
 
